@@ -14,6 +14,7 @@ downtimes (sub-second `now` included), because `floorSec` is the floor for negat
 import FurikoModel.Proofs.CronInit
 import FurikoModel.Proofs.CronCatchUp
 import FurikoModel.Proofs.CronExamples
+import FurikoModel.Proofs.CronLoaded
 
 namespace Furiko.Cron.C04
 open Furiko Furiko.Cron
@@ -112,23 +113,35 @@ theorem schedNew_all_or_nothing (jcs : List JC) (cfg dflt now : Int) :
       ∃ jc ∈ jcs, jc.sched.enabled = true ∧ jc.sched.parseErr = true :=
   schedNew_none_iff jcs cfg dflt now
 
-/-- Catch-up after a restart is exact: on the heap built by `schedNew` (lister = the loaded
-JobConfigs, distinct keys), the first tick at `n₁` requests for every enabled, parsing JobConfig
-exactly the `min cap |D|` earliest elements of
+/-- Catch-up after a restart is exact, whenever the informer's add notifications for the loaded
+JobConfigs are handled.  `bootCtl jcs pq` is the state `CronWorker.Init` leaves behind (heap from
+`schedNew`, lister = the loaded JobConfigs with distinct keys, the record of what was loaded);
+`acts` is ANY boot sequence: ticks interleaved with the initial adds of loaded JobConfigs, each at
+most once (`BootOK`; before the first tick, between ticks, or never).  The FIRST tick (at `n₁`)
+requests for every enabled, parsing JobConfig exactly the `min cap |D|` earliest elements of
 `D = {m | jc.M' m ∧ lowerNs < m*10^9 ∧ notBefore ≤ m ∧ m ≤ floorSec n₁}` (as a strictly increasing
-list).  `n₁ ≥ now` is not needed. -/
+list).  `n₁ ≥ now` is not needed.  (Tick-only form: `catch_up_lemma`.) -/
 theorem catch_up_exact {jcs : List JC} {cfg dflt now : Int} {pq : Heap.PQ}
     (hnd : (jcs.map (fun jc => jc.key)).Nodup)
     (hs : ∀ jc ∈ jcs, ∀ l ∈ jc.sched.exprs, SortedStrict l)
     (h : schedNew jcs cfg dflt now = some pq) {n1 cap : Int} {flushLimit fuel : Nat}
-    (hdone : (work ⟨pq, jcs.map (fun jc => (jc.key, jc)), []⟩ n1  cap flushLimit
-      fuel).2.2 = true)
+    {acts : List CtlAct} (hok : BootOK jcs acts) {ts : List Int} (hticks : ticksOf acts = n1 :: ts)
+    (hdone : (ctlRun Shapes.fixed cap flushLimit fuel (bootCtl jcs pq) acts).2.2 = true)
     {jc : JC} (hjc : jc ∈ jcs) (hen : jc.sched.enabled = true) (hpe : jc.sched.parseErr = false) :
     ∃ D : List Int, SortedStrict D ∧
       (∀ m, m ∈ D ↔ Eligible jc cfg dflt now m ∧ m ≤ floorSec n1) ∧
-      ((work ⟨pq, jcs.map (fun jc => (jc.key, jc)), []⟩ n1  cap flushLimit
-        fuel).2.1.filter (fun p => p.1 = jc.key)).map (fun p => p.2) = D.take cap.toNat :=
-  catch_up_lemma hnd hs h hdone hjc ⟨hen, hpe⟩
+      ∃ first later,
+        (ctlRun Shapes.fixed cap flushLimit fuel (bootCtl jcs pq) acts).2.1 = first :: later ∧
+        (first.filter (fun p => p.1 = jc.key)).map (fun p => p.2) = D.take cap.toNat := by
+  have hrun := (ctlRun_bootCtl cap flushLimit fuel pq hnd hok).2
+  rw [hticks] at hrun
+  rw [hrun] at hdone
+  simp only [runTicks, Bool.and_eq_true] at hdone
+  obtain ⟨D, hD, hmem, htake⟩ := catch_up_lemma hnd hs h hdone.1 hjc ⟨hen, hpe⟩
+  refine ⟨D, hD, hmem, (work ⟨pq, listerOf jcs, []⟩ n1 cap flushLimit fuel).2.1,
+    (runTicks cap flushLimit fuel (work ⟨pq, listerOf jcs, []⟩ n1 cap flushLimit fuel).1 ts).2.1,
+    ?_, htake⟩
+  rw [hrun]; rfl
 
 /-- non-vacuity: `Ex.jcA` last scheduled at 5 s, restart at 25.5 s, first tick at 26 s with cap 2:
 `D = [10, 15, 20]`, requested `[10, 15]` -/
@@ -136,28 +149,51 @@ example : let jc : JC := { Ex.jcA with lastScheduled := some 5 }
     ([jc].map (fun jc => jc.key)).Nodup ∧
     schedNew [jc] 0 300 25500000000 = some (Heap.new [("a", 10)]) ∧
     (work ⟨Heap.new [("a", 10)], [jc].map (fun jc => (jc.key, jc)), []⟩ 26000000000 2 1000 10).2
-      = ([("a", 10), ("a", 15)], true) :=
-  ⟨by decide, rfl, by decide⟩
+      = ([("a", 10), ("a", 15)], true) ∧
+    -- … and the same with the initial add of "a" handled between `Init` and that tick
+    BootOK [jc] [.initialAdd jc, .tick 26000000000] ∧
+    (ctlRun Shapes.fixed 2 1000 10 (bootCtl [jc] (Heap.new [("a", 10)]))
+      [.initialAdd jc, .tick 26000000000]).2 = ([[("a", 10), ("a", 15)]], true) :=
+  ⟨by decide, rfl, by decide,
+   ⟨by decide, by simp [initialAddsOf], by simp [initialAddsOf]⟩, by decide⟩
 
-/-- `never_rerequest` composed with C01 over a whole run: after a restart (heap from `schedNew`,
-lister = the loaded JobConfigs) no tick ever requests a time at or before `lastScheduled`. -/
+/-- `never_rerequest` composed with C01 over a whole run: after a restart (state `bootCtl jcs pq`
+left by `Init`) no tick ever requests a time at or before `lastScheduled`, for ANY interleaving of
+the ticks with the informer's initial adds of the loaded JobConfigs (`BootOK`).  (Tick-only form:
+`never_rerequest_run_lemma`.) -/
 theorem never_rerequest_run {jcs : List JC} {cfg dflt now : Int} {pq : Heap.PQ}
     (hnd : (jcs.map (fun jc => jc.key)).Nodup)
     (hs : ∀ jc ∈ jcs, ∀ l ∈ jc.sched.exprs, SortedStrict l)
     (h : schedNew jcs cfg dflt now = some pq) {cap : Int} {flushLimit fuel : Nat}
-    (ts : List Int) (hts : List.Pairwise (· ≤ ·) ts)
-    (hdone : (runTicks cap flushLimit fuel ⟨pq, jcs.map (fun jc => (jc.key, jc)), []⟩ ts).2.2
-      = true)
+    {acts : List CtlAct} (hok : BootOK jcs acts) (hts : List.Pairwise (· ≤ ·) (ticksOf acts))
+    (hdone : (ctlRun Shapes.fixed cap flushLimit fuel (bootCtl jcs pq) acts).2.2 = true)
     {jc : JC} (hjc : jc ∈ jcs) {ls : Int} (hls : jc.lastScheduled = some ls) :
     ∀ t, (jc.key, t) ∈
-        (runTicks cap flushLimit fuel ⟨pq, jcs.map (fun jc => (jc.key, jc)), []⟩ ts).2.1.flatten →
-      ls < t :=
-  never_rerequest_run_lemma hnd hs h ts hts hdone hjc hls
+        (ctlRun Shapes.fixed cap flushLimit fuel (bootCtl jcs pq) acts).2.1.flatten →
+      ls < t := by
+  have hrun := (ctlRun_bootCtl cap flushLimit fuel pq hnd hok).2
+  rw [hrun] at hdone ⊢
+  exact never_rerequest_run_lemma hnd hs h _ hts hdone hjc hls
 
 example : let jc : JC := { Ex.jcA with lastScheduled := some 15 }
     schedNew [jc] 0 300 25500000000 = some (Heap.new [("a", 20)]) ∧
-    (runTicks 5 1000 10 ⟨Heap.new [("a", 20)], [jc].map (fun jc => (jc.key, jc)), []⟩
-      [26000000000, 31000000000]).2 = ([[("a", 20)], [("a", 30)]], true) :=
-  ⟨rfl, by decide⟩
+    BootOK [jc] [.tick 26000000000, .initialAdd jc, .tick 31000000000] ∧
+    (ctlRun Shapes.fixed 5 1000 10 (bootCtl [jc] (Heap.new [("a", 20)]))
+      [.tick 26000000000, .initialAdd jc, .tick 31000000000]).2 = ([[("a", 20)], [("a", 30)]], true) :=
+  ⟨rfl, ⟨by decide, by simp [initialAddsOf], by simp [initialAddsOf]⟩, by decide⟩
+
+/-- **Any interleaving.**  A boot sequence requests, tick by tick, exactly what its ticks alone
+request from the state `Init` left, and ends in the same heap / lister / channel: the initial adds
+of loaded JobConfigs are invisible.  Every theorem of C01 about `runTicks` (exactly once, in
+order, never early, complete when the cap is not hit) therefore speaks about the run after a
+restart, however late the informer's notifications are handled. -/
+theorem boot_run_eq_ticks {jcs : List JC} (pq : Heap.PQ)
+    (hnd : (jcs.map (fun jc => jc.key)).Nodup) (cap : Int) (flushLimit fuel : Nat)
+    {acts : List CtlAct} (hok : BootOK jcs acts) :
+    (ctlRun Shapes.fixed cap flushLimit fuel (bootCtl jcs pq) acts).1.worker
+      = (runTicks cap flushLimit fuel ⟨pq, jcs.map (fun jc => (jc.key, jc)), []⟩ (ticksOf acts)).1 ∧
+    (ctlRun Shapes.fixed cap flushLimit fuel (bootCtl jcs pq) acts).2
+      = (runTicks cap flushLimit fuel ⟨pq, jcs.map (fun jc => (jc.key, jc)), []⟩ (ticksOf acts)).2 :=
+  ctlRun_bootCtl cap flushLimit fuel pq hnd hok
 
 end Furiko.Cron.C04
